@@ -22,7 +22,7 @@ def run(rep, args):
             rep.structural.append((name, bool(ok), detail))
             if not ok:
                 rep.violation('struct:' + name[:50], 'grammar structure: %s: %s' % (name, detail), dict(obligation=name, detail=str(detail)), concrete=False)
-    n, k = (120, 4) if rep.tier == 'quick' else (1500, 8)
+    n, k = (120, 4) if rep.tier == 'quick' else (600, 6)
     psc.relayout(rep, n, k, outputs=True)
     rep.bounded['rule'] = ('for each seeded random module its token stream (default values and include paths are single tokens) is re-laid out k times: '
                            'at each token gap, with probability 0.35, one of blank / newline / tab / block comment containing braces, semicolons, keywords / '
